@@ -6,7 +6,8 @@ proof:          lean/OdfModel/Props/C09.lean about lean/OdfModel/DomDoc.lean (no
 correspondence: every history runs in lock-step on a real OpenDocumentText and on the driver drv_domdoc; after EVERY
                 step the whole state is compared: links / children / attributes / ownerDocument of every node, and the
                 three dictionaries (element lists in their order); and the answers of a battery of queries
-oracle:         independent of the model: a plain traversal from doc.topnode gives the attached elements; compared
+oracle:         (also: 250 histories over TWO documents with nodes moved straight from one into the other, both queried)
+                independent of the model: a plain traversal from doc.topnode gives the attached elements; compared
                 after every step with doc.getElementsByType (multisets of object identities, each exactly once),
                 element.getElementsByType (filter over the subtree), doc.getStyleByName (search of the attached styles
                 under office:styles / office:automatic-styles; None when absent).  Also on documents obtained by load().
@@ -19,7 +20,8 @@ D.FACTORIES.update({'Styles': ('office', 'Styles'), 'AutomaticStyles': ('office'
 METANS = u"urn:oasis:names:tc:opendocument:xmlns:meta:1.0"
 QSTYLE = (D.STYLENS, u'style')
 REG_PARENTS = ((D.OFFICENS, u'styles'), (D.OFFICENS, u'automatic-styles'))
-QUERY = ['P', 'Span', 'Section', 'H', 'List', 'Style', 'Styles', 'Generator']
+QUERY = ['P', 'Span', 'Section', 'H', 'List', 'Style', 'Styles', 'Generator', 'A', 'DrawA', 'TextTitle', 'DcTitle']
+NAMESAKES = ['A', 'DrawA', 'TextTitle', 'DcTitle']       # text.A / draw.A, text.Title / dc.Title: same function name, other module
 NAMES = [u'A', u'B', u'MA', u'MMA', u'Nope']
 FIXED_QN = {QSTYLE: 1, (D.OFFICENS, u'styles'): 2, (D.OFFICENS, u'automatic-styles'): 3, (METANS, u'generator'): 4}
 FIXED_KEY = {(D.STYLENS, u'name'): 1, (D.TEXTNS, u'style-name'): 2}
@@ -133,6 +135,8 @@ class DocWorld(D.World):
             line = self.line(op) if self.model_on else None
             ans = self.apply(op)
             if line: self.say(line, ans)
+            if k == 'new' and op[1] == 'e' and ans == 'ok':
+                self.say_attrs(op[2], self.nodes[op[2]])          # attributes a factory sets by default (text.A: xlink:type)
         elif k == 'bytype':
             f = D.factory(op[1])
             res = doc.getElementsByType(f)
@@ -315,14 +319,20 @@ class History(object):
         orc.note_state()
         self.check_query(idx, op)
         if battery and not orc.failed:
-            for f in QUERY:
+            core = [f for f in QUERY if f not in NAMESAKES]
+            for f in core + [NAMESAKES[idx % 4], NAMESAKES[(idx + 1) % 4]]:
                 q = ['bytype', f]; w.do(q); self.check_query(idx, q)
             for n in NAMES:
                 q = ['style', n]; w.do(q); self.check_query(idx, q)
             els = [i for i in sorted(w.nodes) if w.nodes[i].nodeType == 1]
             for i in (els[idx % len(els)], els[(7 * idx + 3) % len(els)]):
-                for f in ('P', 'Span'):
+                for f in ('P', 'Span', NAMESAKES[idx % 2]):
                     q = ['elbytype', i, f]; w.do(q); self.check_query(idx, q)
+                for f in NAMESAKES + ['P']:
+                    got = bool(w.nodes[i].isInstanceOf(D.factory(f)))
+                    if got != (w.nodes[i].qname == qname_of_factory(f)):
+                        orc.fail('isinstanceof', idx, 'node %d (%s) .isInstanceOf(%s.%s) = %s' % (
+                            i, w.nodes[i].qname[1], D.FACTORIES[f][0], D.FACTORIES[f][1], got))
         return ans
 
     def check_query(self, idx, q):
@@ -347,14 +357,14 @@ class History(object):
     # ---- generation
     def prologue(self):
         w = self.w
-        for f in ['P', 'P', 'Span', 'Span', 'Section', 'H', 'List', 'ListItem', 'Styles', 'AutomaticStyles', 'Style', 'Style', 'Style', 'Style']:
+        for f in ['P', 'P', 'Span', 'Span', 'Section', 'H', 'List', 'ListItem', 'Styles', 'AutomaticStyles', 'Style', 'Style', 'Style', 'Style', 'A', 'TextTitle']:
             i = w.fresh(); self.fname[i] = f
             self.step(['new', 'e', i, f], battery=False)
         styles = [i for i in sorted(self.fname) if self.fname[i] == 'Style']
         for i, nm in zip(styles, [u'A', u'B', u'A', u'MA']):
             self.step(['setns', i, D.STYLENS, u'name', nm], battery=False)
-        for k in ('t', 't', 'c'):
-            self.step(['new', k, w.fresh(), None], battery=False)
+        for k, data in (('t', None), ('t', u''), ('c', u'')):       # one ordinary, one empty text node, an empty CDATA
+            self.step(['new', k, w.fresh(), data], battery=False)
 
     def movable(self):
         w = self.w
@@ -423,7 +433,7 @@ class History(object):
                 if T: return ['append', r.choice(T), r.choice(M)]
             if k in ('addt', 'addc'):
                 cand = [p for p in P if w.allows_text(p)]
-                if cand: return [k, r.choice(cand), w.fresh(), u'txt' if k == 'addt' else u'cd']
+                if cand: return [k, r.choice(cand), w.fresh(), u'txt' if k == 'addt' else r.choice([u'cd', u''])]
             if k == 'rename':
                 S = [i for i in M if w.nodes[i].nodeType == 1 and w.nodes[i].qname == QSTYLE]
                 if S and r.random() < 0.5: return ['setns', r.choice(S), D.STYLENS, u'name', r.choice([u'A', u'B', u'C'])]
@@ -588,11 +598,154 @@ def exhaustive(chk, drv, depth, cap):
     return len(seen), n
 
 
+# ---------------------------------------------------------------------------------------------
+# two documents in one process: nodes and subtrees moved straight from one into the other (oracle only)
+class TwoDocs(object):
+    FACS = ['P', 'P', 'Span', 'Span', 'Section', 'Style', 'Style']
+    QUERY2 = ['P', 'Span', 'Section', 'Style']
+
+    def __init__(self):
+        from odf.opendocument import OpenDocumentText
+        from odf.element import Text
+        self.docs = [OpenDocumentText(), OpenDocumentText()]
+        self.nodes = {}
+        for d in self.docs:
+            for n in (d.text, d.styles, d.automaticstyles):
+                self.nodes[len(self.nodes)] = n
+        self.fixed = len(self.nodes)
+        for f in self.FACS:
+            self.nodes[len(self.nodes)] = D.factory(f)(check_grammar=False)
+        styles = [i for i in self.nodes if i >= self.fixed and self.nodes[i].qname == QSTYLE]
+        for i, nm in zip(styles, [u'A', u'B']):
+            self.nodes[i].setAttrNS(D.STYLENS, u'name', nm)
+        for data in (u'txt', u''):
+            self.nodes[len(self.nodes)] = Text(data)
+        self.failed = None
+
+    def nid(self, n):
+        for i, x in self.nodes.items():
+            if x is n: return i
+        return 'X'
+
+    def movable(self):
+        return [i for i in sorted(self.nodes) if i >= self.fixed]
+
+    def is_anc_or_self(self, a, x):
+        n = self.nodes[x]; k = 0
+        while n is not None and k < 1000:
+            if n is self.nodes[a]: return True
+            n = n.parentNode; k += 1
+        return False
+
+    def random_op(self, r):
+        N = self.nodes
+        for _ in range(40):
+            k = r.choice(['append'] * 4 + ['insb'] * 3 + ['adde'] * 2 + ['rm'] * 2)
+            P = [i for i in sorted(N) if N[i].nodeType == 1]
+            p = r.choice(P[:self.fixed] * 3 + P); c = r.choice(self.movable())
+            if k == 'rm':
+                ks = [self.nid(x) for x in N[p].childNodes if self.nid(x) in self.movable()]
+                if ks: return ['rm', p, r.choice(ks)]
+                continue
+            if self.is_anc_or_self(c, p): continue
+            if k == 'append': return ['append', p, c]
+            if k == 'adde':
+                if N[c].nodeType == 1: return ['adde', p, c]
+                continue
+            ks = [self.nid(x) for x in N[p].childNodes]
+            return ['insb', p, c, r.choice(ks) if ks and r.random() < 0.7 else None]
+        return ['append', 0, self.fixed]
+
+    def apply(self, op):
+        N = self.nodes
+        try:
+            if op[0] == 'append': N[op[1]].appendChild(N[op[2]])
+            elif op[0] == 'insb': N[op[1]].insertBefore(N[op[2]], None if op[3] is None else N[op[3]])
+            elif op[0] == 'adde': N[op[1]].addElement(N[op[2]], check_grammar=False)
+            elif op[0] == 'rm': N[op[1]].removeChild(N[op[2]])
+            return 'ok'
+        except RecursionError:
+            raise
+        except Exception as e:
+            return 'err ' + D.err_name(e)
+
+    def check(self, idx, op, ans):
+        if ans != 'ok':
+            self.failed = ('legal-edit-refused', idx, '%s answered %s' % (op, ans)); return
+        for k, d in enumerate(self.docs):
+            att = attached_elements(d)
+            for f in self.QUERY2:
+                q = qname_of_factory(f)
+                got = d.getElementsByType(D.factory(f))
+                want = [e for e in att if e.qname == q]
+                if multiset(got) != multiset(want):
+                    self.failed = ('index-bytype-two-documents', idx,
+                                   'after %s: document %d .getElementsByType(%s) = %s, attached in its tree: %s'
+                                   % (op, k, f, sorted(str(self.nid(e)) for e in got), sorted(str(self.nid(e)) for e in want)))
+                    return
+            reg = {}
+            for e in att:
+                if e.qname == QSTYLE and e.parentNode is not None and e.parentNode.qname in REG_PARENTS:
+                    reg.setdefault(e.attributes.get((D.STYLENS, u'name')), []).append(e)
+            for nm in (u'A', u'B', u'MA', u'Nope'):
+                res = d.getStyleByName(nm)
+                want = reg.get(nm, [])
+                if (not want and res is not None) or (want and not any(res is e for e in want)):
+                    self.failed = ('style-lookup-two-documents', idx, 'after %s: document %d .getStyleByName(%r) = %s, styles of that name in its tree: %s'
+                                   % (op, k, nm, None if res is None else self.nid(res), [self.nid(e) for e in want]))
+                    return
+        for i in self.movable():
+            n = self.nodes[i]
+            if n.nodeType != 1: continue
+            home = [d for d in self.docs if attached_to(n, d.topnode)]
+            od = getattr(n, 'ownerDocument', None)
+            if (home and od is not home[0]) or (not home and od is not None):
+                self.failed = ('owner-two-documents', idx, 'after %s: node %d is %s but its ownerDocument is %s'
+                               % (op, i, 'in document %d' % self.docs.index(home[0]) if home else 'detached',
+                                  'none' if od is None else 'document %d' % self.docs.index(od)))
+                return
+
+
+def run_twodocs(ops):
+    t = TwoDocs()
+    for idx, op in enumerate(ops):
+        t.check(idx, op, t.apply(op))
+        if t.failed: break
+    return t
+
+
+def twodocs_histories(chk, n):
+    for s in range(n):
+        t = TwoDocs(); ops = []
+        for idx in range(chk.rng.randint(4, 20)):
+            op = t.random_op(chk.rng); ops.append(op)
+            t.check(idx, op, t.apply(op))
+            chk.count('twodocs_op_' + op[0])
+            if t.failed: break
+        chk.case(('twodocs', json.dumps(ops)), nontrivial=True); chk.count('twodocs_history')
+        if t.failed:
+            sig = t.failed[0]; cur = ops[:t.failed[1] + 1]
+            if not any(f['sig'] == sig for f in chk.failures):
+                changed = True
+                while changed:
+                    changed = False
+                    for i in range(len(cur) - 2, -1, -1):
+                        cand = cur[:i] + cur[i + 1:]
+                        try:
+                            t2 = run_twodocs(cand)
+                        except Exception:
+                            continue
+                        if t2.failed and t2.failed[0] == sig:
+                            cur = cand[:t2.failed[1] + 1]; changed = True; break
+            chk.fail(sig, {'twodocs': cur}, run_twodocs(cur).failed[2] if run_twodocs(cur).failed else t.failed[2])
+
+
 def targeted_histories():
     """scripted histories for the situations random search reaches rarely: a container of styles moved as a whole,
     a registered style that ends up outside the style sections, name clashes onto taken names.
     Ids: skeleton 0..11 (7 = office:styles, 8 = office:automatic-styles, 11 = office:text), then the prologue:
-    12,13 P; 14,15 Span; 16 Section; 17 H; 18 List; 19 ListItem; 20 Styles; 21 AutomaticStyles; 22..25 Style A,B,A,MA"""
+    12,13 P; 14,15 Span; 16 Section; 17 H; 18 List; 19 ListItem; 20 Styles; 21 AutomaticStyles; 22..25 Style A,B,A,MA;
+    26 text:a; 27 text:title"""
     NS = D.STYLENS
     look = [['style', u'A'], ['style', u'B'], ['style', u'MA'], ['style', u'C']]
     return [
@@ -607,6 +760,9 @@ def targeted_histories():
         [['setns', 22, NS, u'name', u'A']] + look + [['append', 8, 22]] + look,
         # clash onto a taken name: MA, A, A
         [['append', 7, 25], ['append', 7, 22], ['append', 8, 24]] + look + [['rm', 8, 24]] + look + [['rm', 7, 25]] + look,
+        # a text:a and a text:title in the document, then the namesake factories draw.A / dc.Title are asked
+        [['append', 12, 26], ['append', 12, 27], ['append', 11, 12], ['bytype', 'A'], ['bytype', 'DrawA'], ['bytype', 'TextTitle'],
+         ['bytype', 'DcTitle'], ['elbytype', 12, 'DrawA'], ['elbytype', 12, 'A'], ['rm', 12, 26], ['bytype', 'DrawA'], ['bytype', 'A']],
         # a renamed style removed, another style of its old name added
         [['append', 7, 22], ['setns', 22, NS, u'name', u'B'], ['append', 8, 23]] + look + [['rm', 7, 22], ['append', 8, 24]] + look,
     ]
@@ -617,8 +773,12 @@ def run(chk, replay=None):
                 '2 text and 1 CDATA node: append / insertBefore / removeChild / addElement / addText / addCDATA on attached and '
                 'detached parents (whole subtrees added, removed, re-added, moved; text nodes moved), styles added under '
                 'office:styles and office:automatic-styles, renamed, removed; xml() / metaxml() / save() interleaved; load() of the saved '
-                'package; after every step 8 document-level type queries, 5 name lookups, 4 element-level queries; '
+                'package; after every step 12 document-level type queries (incl. same-named factories of different modules), 5 name lookups, 8 element-level queries, isInstanceOf; '
                 'non-trivial = history that changes the set of attached elements')
+    if replay is not None and 'twodocs' in replay['input']:
+        t = run_twodocs(replay['input']['twodocs'])
+        print('replay: two documents, ops=%s -> %s' % (json.dumps(replay['input']['twodocs']), t.failed))
+        return 1 if t.failed else 0
     if replay is not None:
         h = replay_history(replay['input']['ops'])
         print('replay: ops=%s -> %s' % (json.dumps(replay['input']['ops']), h.orc.failed))
@@ -626,7 +786,7 @@ def run(chk, replay=None):
     chk.prove(drivers=['drv_domdoc'])
     drv = chk.driver('drv_domdoc')
     thorough = chk.tier == 'thorough'
-    nhist = 2000 if thorough else 500
+    nhist = 2000 if thorough else 420
     for s in range(nhist):
         h = History(chk.rng)
         h.prologue()
@@ -646,6 +806,7 @@ def run(chk, replay=None):
         if h.orc.dupnames: chk.count('history_with_duplicate_style_names')
         if h.orc.failed:
             report(chk, h)
+    twodocs_histories(chk, 1500 if thorough else 250)
     for k, script in enumerate(targeted_histories()):
         h = History(chk.rng)
         h.prologue()
